@@ -24,6 +24,7 @@ import Vita.C09.LemmasRead
 import Vita.C09.LemmasSniff
 import Vita.C09.LemmasTable
 import Vita.C09.LemmasXrff
+import Vita.C09.LemmasCat
 
 namespace Vita.C09
 
@@ -31,21 +32,41 @@ variable {F : Type}
 
 /-! ## 1. `parse_line` inverts rendering -/
 
-/-- For every delimiter (other than NUL and the quote), every list of fields free of NUL / CR /
-    LF and **every** choice of the fields to quote that includes the ones that need it, parsing
-    the rendered line gives the fields back (trimmed when `trim_ws` is on), also when the line
-    ends with the CR of a CR LF pair. -/
+/-- For every delimiter (other than NUL and the quote), both quoting styles (`REMOVE_QUOTES`,
+    `KEEP_QUOTES`), `trim_ws` on or off, every list of fields free of NUL / CR / LF and **every**
+    choice of the fields to quote that includes the ones that need it, parsing the rendered line
+    gives the fields back – `fieldSeen`: between the quotes they were written with when quotes are
+    kept, `fieldOut`: trimmed when `trim_ws` is on –, also when the line ends with the CR of a CR LF
+    pair. -/
+theorem parse_render_dialect (dl : Dialect) (eol : Str) (fields : List (Str × Bool))
+    (h0 : dl.delim ≠ '\x00') (hq : dl.delim ≠ QUOTE) (heol : EolOK dl.delim eol) (hne : fields ≠ [])
+    (hclean : ∀ p ∈ fields, Clean p.1) (hquoted : ∀ p ∈ fields, needsQuote dl.delim p.1 = true → p.2 = true) :
+    parseLine dl (renderLine dl.delim fields ++ eol) =
+      fields.map (fun p => fieldOut dl (fieldSeen dl p.1 p.2)) := by
+  have := go_line dl h0 hq eol heol fields [] hne
+    (fun p hp => ⟨hclean p hp, fun h2 => by
+      cases hn : needsQuote dl.delim p.1 with
+      | false => rfl
+      | true => have := hquoted p hp hn; rw [h2] at this; cases this⟩)
+  simpa [parseLine] using this
+
+/-- the default quoting style (`REMOVE_QUOTES`): the fields come back as they were -/
 theorem parse_render (d : Char) (trimWs : Bool) (eol : Str) (fields : List (Str × Bool))
     (h0 : d ≠ '\x00') (hq : d ≠ QUOTE) (heol : EolOK d eol) (hne : fields ≠ [])
     (hclean : ∀ p ∈ fields, Clean p.1) (hquoted : ∀ p ∈ fields, needsQuote d p.1 = true → p.2 = true) :
     parseLine { delim := d, trimWs := trimWs } (renderLine d fields ++ eol) =
       fields.map (fun p => if trimWs then trim p.1 else p.1) := by
-  have := go_line { delim := d, trimWs := trimWs } h0 hq eol heol fields [] hne (fun _ _ _ => rfl)
-    (fun p hp => ⟨hclean p hp, fun h2 => by
-      cases hn : needsQuote d p.1 with
-      | false => rfl
-      | true => have := hquoted p hp hn; rw [h2] at this; cases this⟩)
-  simpa [parseLine, fieldOut] using this
+  have := parse_render_dialect { delim := d, trimWs := trimWs } eol fields h0 hq heol hne hclean hquoted
+  simpa [fieldOut, fieldSeen] using this
+
+/-- `KEEP_QUOTES`: a quoted field comes back between its quotes (inner quotes un-doubled) -/
+theorem parse_render_keep (d : Char) (eol : Str) (fields : List (Str × Bool))
+    (h0 : d ≠ '\x00') (hq : d ≠ QUOTE) (heol : EolOK d eol) (hne : fields ≠ [])
+    (hclean : ∀ p ∈ fields, Clean p.1) (hquoted : ∀ p ∈ fields, needsQuote d p.1 = true → p.2 = true) :
+    parseLine { delim := d, keepQuotes := true } (renderLine d fields ++ eol) =
+      fields.map (fun p => if p.2 then QUOTE :: (p.1 ++ [QUOTE]) else p.1) := by
+  have := parse_render_dialect { delim := d, keepQuotes := true } eol fields h0 hq heol hne hclean hquoted
+  simpa [fieldOut, fieldSeen] using this
 
 /-- "quote iff needed" -/
 theorem parse_render_minimal (d : Char) (fields : List Str) (h0 : d ≠ '\x00') (hq : d ≠ QUOTE)
@@ -113,6 +134,31 @@ theorem class_name_of_lookup (m : ClassMap) (h : ClassInv m) (l : Str) (i : Nat)
     className m i = l :=
   className_of_mem m h l i (lookup_some_mem m l i hl)
 
+/-- **label_trimmed.**  Class labels are compared after trimming: two output cells that differ only
+    in surrounding white space (`Iris-setosa` and ` Iris-setosa `, quoted or not) are the same class –
+    the second one gets the id of the first and adds nothing to the class map – and the name stored
+    for the id is the trimmed text. -/
+theorem label_trimmed (o : NumOracle F) (m : ClassMap) (hinv : ClassInv m) (c0 : Col) (a b : Str) (add : Bool)
+    (hd : c0.dom ≠ .void) (ha : isNumber o a = false) (hab : trim a = trim b) :
+    ∃ (id : Nat) (m' : ClassMap) (c' : Col), outputOf o m c0 a add = .ok (.int id, m', c') ∧ ClassInv m' ∧
+      lookup m' (trim a) = some id ∧ className m' id = trim a ∧ c'.dom = c0.dom ∧
+      ∃ c'', outputOf o m' c' b add = .ok (.int id, m', c'') := by
+  have hb : isNumber o b = false := by
+    rw [← isNumber_trim, ← hab, isNumber_trim]; exact ha
+  have hinv' := encode_inv m hinv (trim a)
+  have hlk : lookup (encode m (trim a)).2 (trim a) = some (encode m (trim a)).1 :=
+    lookup_of_mem _ hinv' _ _ (encode_mem m (trim a))
+  have hdom : (addState add c0 (trim a)).dom = c0.dom := by
+    unfold addState; split <;> rfl
+  refine ⟨(encode m (trim a)).1, (encode m (trim a)).2, addState add c0 (trim a), ?_, hinv', hlk,
+    className_of_mem _ hinv' _ _ (encode_mem m (trim a)), hdom, addState add (addState add c0 (trim a)) (trim b), ?_⟩
+  · simp [outputOf, hd, ha, pure, Except.pure]
+  · have he : encode (encode m (trim a)).2 (trim b) = ((encode m (trim a)).1, (encode m (trim a)).2) := by
+      rw [← hab]
+      unfold encode at hlk ⊢
+      simp only [hlk]
+    simp [outputOf, hdom, hd, hb, he, pure, Except.pure]
+
 /-! ## 3. rows of a well-formed table -/
 
 /-- with output index `k` the record seen by the dataframe is cell `k` followed by the others -/
@@ -135,43 +181,43 @@ theorem prep_none (r : List Str) : prep none r = [] :: r := rfl
     the label otherwise – with the label recoverable from the id); the columns are named by the
     header (output first) and carry the domains of the first data row. -/
 theorem rows_faithful (cfg : Cfg) (o : NumOracle F) (d : Char) (eol : Str) (t : Table) (p : Params)
-    (hd : p.delim = d) (hh : p.header = some t.header.isSome) (hf : p.filter = fun _ => true)
+    (hd : p.delim = d) (hh : p.header = some t.header.isSome) (hf : p.hook = some)
     (hwf : WellFormed d eol t) (hk : ∀ k, p.outIdx = some k → k < t.row0.length)
-    (hty : Typed o p.outIdx p.trimWs t) :
+    (hty : Typed o p.outIdx p.trimWs p.keepQuotes t) :
     ∃ df, readCsv cfg o p (t.render d eol) = .ok df ∧
       df.examples.length = t.rows.length ∧
       (∀ pr ∈ t.rows.zip df.examples,
-        pr.2.input = inputVals o (kinds o true (prep p.outIdx (fieldsOf p.trimWs t.row0))).tail
-                       (prep p.outIdx (fieldsOf p.trimWs pr.1)).tail) ∧
-      (Regr o (kinds o true (prep p.outIdx (fieldsOf p.trimWs t.row0)))
-          (t.rows.map (fun r => prep p.outIdx (fieldsOf p.trimWs r))) →
+        pr.2.input = inputVals o (kinds o true (prep p.outIdx (fieldsOf p.trimWs p.keepQuotes t.row0))).tail
+                       (prep p.outIdx (fieldsOf p.trimWs p.keepQuotes pr.1)).tail) ∧
+      (Regr o (kinds o true (prep p.outIdx (fieldsOf p.trimWs p.keepQuotes t.row0)))
+          (t.rows.map (fun r => prep p.outIdx (fieldsOf p.trimWs p.keepQuotes r))) →
         df.classes = [] ∧
         ∀ pr ∈ t.rows.zip df.examples,
-          pr.2.output = if outDom (kinds o true (prep p.outIdx (fieldsOf p.trimWs t.row0))) = .void then .void
-            else cellVal o (outDom (kinds o true (prep p.outIdx (fieldsOf p.trimWs t.row0))))
-                   ((prep p.outIdx (fieldsOf p.trimWs pr.1)).headD [])) ∧
-      (Classif o (kinds o true (prep p.outIdx (fieldsOf p.trimWs t.row0)))
-          (t.rows.map (fun r => prep p.outIdx (fieldsOf p.trimWs r))) →
+          pr.2.output = if outDom (kinds o true (prep p.outIdx (fieldsOf p.trimWs p.keepQuotes t.row0))) = .void then .void
+            else cellVal o (outDom (kinds o true (prep p.outIdx (fieldsOf p.trimWs p.keepQuotes t.row0))))
+                   ((prep p.outIdx (fieldsOf p.trimWs p.keepQuotes pr.1)).headD [])) ∧
+      (Classif o (kinds o true (prep p.outIdx (fieldsOf p.trimWs p.keepQuotes t.row0)))
+          (t.rows.map (fun r => prep p.outIdx (fieldsOf p.trimWs p.keepQuotes r))) →
         ClassInv df.classes ∧
         ∀ pr ∈ t.rows.zip df.examples, ∃ id : Nat,
           pr.2.output = .int id ∧
-          lookup df.classes (trim ((prep p.outIdx (fieldsOf p.trimWs pr.1)).headD [])) = some id ∧
-          className df.classes id = trim ((prep p.outIdx (fieldsOf p.trimWs pr.1)).headD [])) ∧
+          lookup df.classes (trim ((prep p.outIdx (fieldsOf p.trimWs p.keepQuotes pr.1)).headD [])) = some id ∧
+          className df.classes id = trim ((prep p.outIdx (fieldsOf p.trimWs p.keepQuotes pr.1)).headD [])) ∧
       skel df.cols =
-        (colNames p.outIdx (t.header.map (fieldsOf p.trimWs)) (prep p.outIdx (fieldsOf p.trimWs t.row0)).length).zip
-          (kinds o true (prep p.outIdx (fieldsOf p.trimWs t.row0))) := by
+        (colNames p.outIdx (t.header.map (fieldsOf p.trimWs p.keepQuotes)) (prep p.outIdx (fieldsOf p.trimWs p.keepQuotes t.row0)).length).zip
+          (kinds o true (prep p.outIdx (fieldsOf p.trimWs p.keepQuotes t.row0))) := by
   have hd0 : p.delim ≠ '\x00' := by rw [hd]; exact hwf.d0
-  have hrecs := records_of_table d eol t p.trimWs p.filter hwf
-  have hlines : (t.lines.map (fieldsOf p.trimWs)).filter p.filter =
-      (t.header.map (fieldsOf p.trimWs)).toList ++ fieldsOf p.trimWs t.row0 :: t.rest.map (fieldsOf p.trimWs) := by
+  have hrecs := records_of_table d eol t p.trimWs p.keepQuotes p.hook hwf
+  have hlines : (t.lines.map (fieldsOf p.trimWs p.keepQuotes)).filterMap p.hook =
+      (t.header.map (fieldsOf p.trimWs p.keepQuotes)).toList ++ fieldsOf p.trimWs p.keepQuotes t.row0 :: t.rest.map (fieldsOf p.trimWs p.keepQuotes) := by
     rw [hf]
     cases hh' : t.header <;> simp [Table.lines, Table.rows, hh']
-  have hflen : ∀ l, (fieldsOf p.trimWs l).length = l.length := fun l => by simp [fieldsOf]
-  obtain ⟨df, hread, hex, hcl, hsk⟩ := readCsvRecs_faithful cfg o p.outIdx (t.header.map (fieldsOf p.trimWs))
-    (fieldsOf p.trimWs t.row0) (t.rest.map (fieldsOf p.trimWs))
+  have hflen : ∀ l, (fieldsOf p.trimWs p.keepQuotes l).length = l.length := fieldsOf_length _ _
+  obtain ⟨df, hread, hex, hcl, hsk⟩ := readCsvRecs_faithful cfg o p.outIdx (t.header.map (fieldsOf p.trimWs p.keepQuotes))
+    (fieldsOf p.trimWs p.keepQuotes t.row0) (t.rest.map (fieldsOf p.trimWs p.keepQuotes))
     (by
       intro r hr k hko
-      have : ∃ l ∈ t.lines, r = fieldsOf p.trimWs l := by
+      have : ∃ l ∈ t.lines, r = fieldsOf p.trimWs p.keepQuotes l := by
         cases hh' : t.header with
         | none =>
           simp only [hh', Option.map_none, Option.toList_none, List.nil_append, List.mem_cons, List.mem_map] at hr
@@ -203,11 +249,11 @@ theorem rows_faithful (cfg : Cfg) (o : NumOracle F) (d : Char) (eol : Str) (t : 
       · exact hty.rows t.row0 (by simp [Table.rows])
       · exact hty.rows l (by simp [Table.rows, hl]))
     (by simpa [Table.rows, Function.comp_def] using hty.cls)
-  have hrows' : (fieldsOf p.trimWs t.row0 :: t.rest.map (fieldsOf p.trimWs)).map (prep p.outIdx) =
-      t.rows.map (fun r => prep p.outIdx (fieldsOf p.trimWs r)) := by
+  have hrows' : (fieldsOf p.trimWs p.keepQuotes t.row0 :: t.rest.map (fieldsOf p.trimWs p.keepQuotes)).map (prep p.outIdx) =
+      t.rows.map (fun r => prep p.outIdx (fieldsOf p.trimWs p.keepQuotes r)) := by
     simp [Table.rows, Function.comp_def]
   rw [hrows'] at hex hcl
-  have hrok : ∀ r' ∈ t.rows.map (fun r => prep p.outIdx (fieldsOf p.trimWs r)), r' ≠ [] := by
+  have hrok : ∀ r' ∈ t.rows.map (fun r => prep p.outIdx (fieldsOf p.trimWs p.keepQuotes r)), r' ≠ [] := by
     intro r' hr'
     simp only [List.mem_map] at hr'
     obtain ⟨r, hr, rfl⟩ := hr'
@@ -219,12 +265,12 @@ theorem rows_faithful (cfg : Cfg) (o : NumOracle F) (d : Char) (eol : Str) (t : 
     have : t.row0.length = 0 := by simp at h1; omega
     exact hwf.width (List.length_eq_zero_iff.1 this)
   have hzip : ∀ pr ∈ t.rows.zip df.examples,
-      (prep p.outIdx (fieldsOf p.trimWs pr.1), pr.2) ∈
-        (t.rows.map (fun r => prep p.outIdx (fieldsOf p.trimWs r))).zip df.examples := by
+      (prep p.outIdx (fieldsOf p.trimWs p.keepQuotes pr.1), pr.2) ∈
+        (t.rows.map (fun r => prep p.outIdx (fieldsOf p.trimWs p.keepQuotes r))).zip df.examples := by
     intro pr hpr
     rw [List.zip_map_left]
     exact List.mem_map.2 ⟨pr, hpr, rfl⟩
-  have hisSome : (t.header.map (fieldsOf p.trimWs)).isSome = t.header.isSome := by cases t.header <;> rfl
+  have hisSome : (t.header.map (fieldsOf p.trimWs p.keepQuotes)).isSome = t.header.isSome := by cases t.header <;> rfl
   refine ⟨df, ?_, ?_, ?_, ?_, ?_, ?_⟩
   · unfold readCsv resolveDialect
     simp only [hh, Option.isNone_some, hd0, Bool.false_or, decide_false, Bool.false_eq_true, if_false,
@@ -316,41 +362,172 @@ theorem rows_faithful_xrff (cfg : Cfg) (o : NumOracle F) (filter : List Str → 
     rw [← hcl] at h2
     exact ⟨id, h1, lookup_of_mem _ hinv _ _ h2, className_of_mem _ hinv _ _ h2⟩
 
+/-- **xrff_types.**  The attribute types `read_xrff` handles, for **every** type string: `integer` is
+    read with `std::stoi`, `numeric` / `real` with `std::stod`, `nominal` / `string` as text; anything
+    else (`date`, `relational`, a missing or differently spelled type) gives the column no domain, and
+    such a column is left out of the examples (`inputVals` skips it, the other inputs keep their
+    order: `rows_faithful_xrff`).  A `nominal` / `string` class attribute is numeric (class ids). -/
+theorem xrff_types (t : Str) (a : XAttr) :
+    (t = "integer".toList → fromWeka t = .int) ∧
+    (t = "numeric".toList ∨ t = "real".toList → fromWeka t = .dbl) ∧
+    (t = "nominal".toList ∨ t = "string".toList → fromWeka t = .str) ∧
+    (t ∉ ["integer".toList, "numeric".toList, "real".toList, "nominal".toList, "string".toList] → fromWeka t = .void) ∧
+    ((a.type = "nominal".toList ∨ a.type = "string".toList) → (colOfOut a).dom = .dbl ∧ (colOfOut a).states = []) ∧
+    (colOf a).dom = fromWeka a.type ∧ (colOfOut a).name = a.name ∧ (colOf a).name = a.name := by
+  refine ⟨?_, ?_, ?_, ?_, ?_, rfl, rfl, rfl⟩
+  · intro h; subst h; decide
+  · intro h; rcases h with h | h <;> subst h <;> decide
+  · intro h; rcases h with h | h <;> subst h <;> decide
+  · intro h
+    simp only [List.mem_cons, List.mem_nil_iff, or_false, not_or] at h
+    obtain ⟨h1, h2, h3, h4, h5⟩ := h
+    unfold fromWeka
+    have n23 : ¬ (decide (t = "numeric".toList) || decide (t = "real".toList)) = true := by
+      intro hc
+      rcases Bool.or_eq_true_iff.1 hc with h | h
+      · exact h2 (of_decide_eq_true h)
+      · exact h3 (of_decide_eq_true h)
+    have n45 : ¬ (decide (t = "nominal".toList) || decide (t = "string".toList)) = true := by
+      intro hc
+      rcases Bool.or_eq_true_iff.1 hc with h | h
+      · exact h4 (of_decide_eq_true h)
+      · exact h5 (of_decide_eq_true h)
+    rw [if_neg h1, if_neg n23, if_neg n45]
+  · intro h
+    have hb : (decide (a.type = "nominal".toList) || decide (a.type = "string".toList)) = true := by
+      rcases h with h | h <;> rw [h] <;> decide
+    have hw : fromWeka "numeric".toList = .dbl := by decide
+    have hne : ¬ "numeric".toList = "nominal".toList := by decide
+    constructor
+    · unfold colOfOut; rw [if_pos hb]; exact hw
+    · unfold colOfOut; rw [if_pos hb]; simp only []; rw [if_neg hne]
+
 /-- **header_names.**  With a header the column names are the (trimmed) header cells, output
     column first; without one they are empty – this is the `skel` clause of `rows_faithful`: -/
 theorem header_names (outIdx : Option Nat) (h : List Str) (n : Nat) :
     colNames outIdx (some h) n = (prep outIdx h).map trim ∧
     colNames outIdx none n = List.replicate n [] := ⟨rfl, rfl⟩
 
-/-- **filter_absent.**  Reading with a filter hook gives exactly what reading the table without
-    the rejected lines gives (the hook sees the parsed fields of every line, header included). -/
-theorem filter_absent (cfg : Cfg) (o : NumOracle F) (d : Char) (eol : Str) (t : Table) (p : Params)
-    (f : List Str → Bool) (lines' : List (List (Str × Bool)))
+/-- **hook_on_parsed_records** (filter_absent, general form, CSV).  For **every** byte string, every
+    parameter setting and every hook: the import is `read_csv`'s loop over the records the parser
+    delivers when no hook is installed, each handed to the hook – one by one, in file order, exactly as
+    parsed (the header line too; the output cell still in its place: the rotation is part of
+    `readCsvRecs`) –; what the hook rejects is absent, what it rewrites is read rewritten.  The
+    dialect does not depend on the hook. -/
+theorem hook_on_parsed_records (cfg : Cfg) (o : NumOracle F) (p : Params) (bytes : Str) :
+    resolveDialect cfg o p (splitLines bytes) = resolveDialect cfg o { p with hook := some } (splitLines bytes) ∧
+    readCsv cfg o p bytes =
+      readCsvRecs cfg o p.outIdx (resolveDialect cfg o p (splitLines bytes)).2
+        ((records { delim := (resolveDialect cfg o p (splitLines bytes)).1, trimWs := p.trimWs,
+                    keepQuotes := p.keepQuotes } some (splitLines bytes)).filterMap p.hook) := by
+  refine ⟨rfl, ?_⟩
+  unfold readCsv records
+  simp
+
+/-- **hook_absent.**  On a well-formed table: reading with a hook gives exactly what reading – without
+    a hook – any well-formed file gives whose rows are the records the hook returns (the hook sees the
+    parsed fields of every line, header included, before the output column is moved). -/
+theorem hook_absent (cfg : Cfg) (o : NumOracle F) (d : Char) (eol : Str) (t : Table) (p : Params)
+    (hook : Hook) (lines' : List (List (Str × Bool)))
     (hd : p.delim = d) (hh : p.header.isSome) (hwf : WellFormed d eol t)
-    (hl : lines' = t.lines.filter (fun l => f (fieldsOf p.trimWs l))) :
-    readCsv cfg o { p with filter := f } (t.render d eol) =
-    readCsv cfg o { p with filter := fun _ => true } (renderFile eol (lines'.map (renderLine d))) := by
+    (hne : ∀ l ∈ lines', l ≠ [])
+    (hclean : ∀ l ∈ lines', ∀ c ∈ l, Clean c.1 ∧ (c.2 = false → needsQuote d c.1 = false))
+    (hvis : ∀ l ∈ lines', isBlank (renderLine d l ++ eol) = false)
+    (hl : lines'.map (fieldsOf p.trimWs p.keepQuotes) =
+          (t.lines.map (fieldsOf p.trimWs p.keepQuotes)).filterMap hook) :
+    readCsv cfg o { p with hook := hook } (t.render d eol) =
+    readCsv cfg o { p with hook := some } (renderFile eol (lines'.map (renderLine d))) := by
   have hd0 : p.delim ≠ '\x00' := by rw [hd]; exact hwf.d0
-  have h1 := records_of_table d eol t p.trimWs f hwf
-  have hsub : ∀ l ∈ lines', l ∈ t.lines := by
-    intro l hl'; rw [hl] at hl'; exact (List.mem_filter.1 hl').1
-  have h2 := records_render { delim := d, trimWs := p.trimWs } rfl hwf.d0 hwf.dq hwf.dn eol hwf.eol_ok
-    (fun _ => true) lines'
-    (fun l hl' => by
-      intro h
-      have := hwf.rect l (hsub l hl')
-      rw [h] at this
-      exact hwf.width (List.length_eq_zero_iff.1 this.symm))
-    (fun l hl' => hwf.clean l (hsub l hl')) (fun l hl' => hwf.visible l (hsub l hl'))
+  have h1 := records_of_table d eol t p.trimWs p.keepQuotes hook hwf
+  have h2 := records_render { delim := d, trimWs := p.trimWs, keepQuotes := p.keepQuotes } hwf.d0 hwf.dq hwf.dn eol
+    hwf.eol_ok some lines' hne hclean hvis
   cases hp : p.header with
   | none => simp [hp] at hh
   | some hflag =>
     unfold readCsv resolveDialect
-    simp only [hp, Option.isNone_some, hd0, Bool.false_or, decide_false, Bool.false_eq_true, if_false,
+    simp only [Option.isNone_some, hd0, Bool.false_or, decide_false, Bool.false_eq_true, if_false,
       Option.getD_some]
-    rw [hd, h1, h2, hl]
-    congr 1
-    simp [fieldsOf, fieldOut, List.filter_map, Function.comp_def]
+    rw [hd, h1, h2, ← hl, List.filterMap_some]
+    rfl
+
+/-- **filter_absent.**  Reading with a filter gives exactly what reading the table without the
+    rejected lines gives (the filter sees the parsed fields of every line, header included, in
+    their order in the file). -/
+theorem filter_absent (cfg : Cfg) (o : NumOracle F) (d : Char) (eol : Str) (t : Table) (p : Params)
+    (f : List Str → Bool) (lines' : List (List (Str × Bool)))
+    (hd : p.delim = d) (hh : p.header.isSome) (hwf : WellFormed d eol t)
+    (hl : lines' = t.lines.filter (fun l => f (fieldsOf p.trimWs p.keepQuotes l))) :
+    readCsv cfg o { p with hook := Hook.ofPred f } (t.render d eol) =
+    readCsv cfg o { p with hook := some } (renderFile eol (lines'.map (renderLine d))) := by
+  have hsub : ∀ l ∈ lines', l ∈ t.lines := by
+    intro l hl'; rw [hl] at hl'; exact (List.mem_filter.1 hl').1
+  apply hook_absent cfg o d eol t p (Hook.ofPred f) lines' hd hh hwf
+  · intro l hl' h
+    have := hwf.rect l (hsub l hl')
+    rw [h] at this
+    exact hwf.width (List.length_eq_zero_iff.1 this.symm)
+  · exact fun l hl' => hwf.clean l (hsub l hl')
+  · exact fun l hl' => hwf.visible l (hsub l hl')
+  · rw [hl]
+    generalize t.lines = L
+    induction L with
+    | nil => rfl
+    | cons a L ih =>
+      simp only [List.filter_cons, List.map_cons, List.filterMap_cons, Hook.ofPred]
+      cases f (fieldsOf p.trimWs p.keepQuotes a) <;> simp [ih]
+
+/-- **filter_absent (XRFF).**  For every document and every hook: the hook is handed the values of
+    each `<instance>` in the order of the `<value>` elements – *before* the class value is moved to
+    the front –, one instance at a time, in document order; reading with the hook is reading –
+    without a hook – the document whose instances are the records the hook returns. -/
+theorem filter_absent_xrff (cfg : Cfg) (o : NumOracle F) (hook : Hook) (attrs : List XAttr)
+    (insts : List (List Str)) :
+    readXrffH cfg o hook (.doc attrs (some insts)) =
+    readXrffH cfg o some (.doc attrs (some (insts.filterMap hook))) :=
+  readXrffH_filterMap cfg o hook attrs insts
+
+/-- a filter predicate is the hook that only filters; for it the instances read are the instances
+    the predicate accepts -/
+theorem filter_pred_xrff (cfg : Cfg) (o : NumOracle F) (f : List Str → Bool) (attrs : List XAttr)
+    (insts : List (List Str)) :
+    readXrff cfg o f (.doc attrs (some insts)) = readXrffH cfg o (Hook.ofPred f) (.doc attrs (some insts)) ∧
+    readXrffH cfg o (Hook.ofPred f) (.doc attrs (some insts)) =
+      readXrffH cfg o some (.doc attrs (some (insts.filter f))) := by
+  refine ⟨readXrff_eq_H cfg o f _, ?_⟩
+  rw [readXrffH_filterMap]
+  congr 3
+  induction insts with
+  | nil => rfl
+  | cons a l ih => cases h : f a <;> simp [Hook.ofPred, h, ih]
+
+/-- **rows_faithful (XRFF) with a hook**: `rows_faithful_xrff` for the records the hook returns -/
+theorem rows_faithful_xrff_hook (cfg : Cfg) (o : NumOracle F) (hook : Hook) (h : XHeader) (hwf : h.WF)
+    (insts : List (List Str))
+    (hrows : ∀ r ∈ insts.filterMap hook, h.k < r.length ∧ RowOKx o (h.cols.map (·.dom)) (rot r h.k))
+    (hcls : Regr o (h.cols.map (·.dom)) ((insts.filterMap hook).map (fun r => rot r h.k)) ∨
+            (Classif o (h.cols.map (·.dom)) ((insts.filterMap hook).map (fun r => rot r h.k)) ∧
+             (specRows o (h.cols.map (·.dom)) [] ((insts.filterMap hook).map (fun r => rot r h.k))).1.length ≠ 1)) :
+    ∃ df, readXrffH cfg o hook (.doc h.attrs (some insts)) = .ok (df, (insts.filterMap hook).length) ∧
+      df.examples.length = (insts.filterMap hook).length ∧
+      (∀ pr ∈ (insts.filterMap hook).zip df.examples,
+        pr.2.input = inputVals o (h.cols.map (·.dom)).tail (rot pr.1 h.k).tail) ∧
+      (Regr o (h.cols.map (·.dom)) ((insts.filterMap hook).map (fun r => rot r h.k)) →
+        df.classes = [] ∧
+        ∀ pr ∈ (insts.filterMap hook).zip df.examples,
+          pr.2.output = if outDom (h.cols.map (·.dom)) = .void then .void
+            else cellVal o (outDom (h.cols.map (·.dom))) ((rot pr.1 h.k).headD [])) ∧
+      (Classif o (h.cols.map (·.dom)) ((insts.filterMap hook).map (fun r => rot r h.k)) →
+        ClassInv df.classes ∧
+        ∀ pr ∈ (insts.filterMap hook).zip df.examples, ∃ id : Nat,
+          pr.2.output = .int id ∧
+          lookup df.classes (trim ((rot pr.1 h.k).headD [])) = some id ∧
+          className df.classes id = trim ((rot pr.1 h.k).headD [])) ∧
+      skel df.cols = skel h.cols := by
+  have hT : ∀ l : List (List Str), l.filter (fun _ => true) = l := fun l => by simp
+  have := rows_faithful_xrff cfg o (fun _ => true) h hwf (insts.filterMap hook)
+    (by rw [hT]; exact hrows) (by rw [hT]; exact hcls)
+  rw [hT, readXrff_eq_H, ofPred_true, ← readXrffH_filterMap] at this
+  exact this
 
 /-! ## 4. variables -/
 
@@ -407,6 +584,154 @@ theorem old_var_out_of_range :
   · simp [setupVarsGo, varName, categories, categoriesGo]
   · simp [evalVar, fetchVar, throw, throwThe, MonadExceptOf.throw]
 
+/-! ## 4b. categories, state constants, types -/
+
+/-- **category_valid.**  For every list of columns and both typings the `category_set` built from it
+    passes `category_set::is_valid`: one entry per column carrying the column's domain; the category
+    is undefined exactly for the columns without a domain; equal categories imply equal domains. -/
+theorem category_valid (strong : Bool) (cols : List Col) :
+    (categories strong cols).map (·.2) = cols.map (·.dom) ∧
+    (∀ x ∈ categories strong cols, (x.1 = none ↔ x.2 = .void)) ∧
+    (∀ x ∈ categories strong cols, ∀ y ∈ categories strong cols, x.1 = y.1 → x.1 ≠ none → x.2 = y.2) := by
+  obtain ⟨h1, n, h2⟩ := categories_spec strong cols
+  exact ⟨h1, h2.void, h2.dom⟩
+
+/-- **category_typing.**  Strong typing: two different columns never share a category.  Weak typing:
+    the numeric columns of equal domain share one.  Both: a column of domain `d_string` has a
+    category of its own. -/
+theorem category_typing (strong : Bool) (cols : List Col) :
+    (strong = true → (categories strong cols).Pairwise (fun x y => x.1 = y.1 → x.1 = none)) ∧
+    (strong = false → ∀ x ∈ categories strong cols, ∀ y ∈ categories strong cols,
+        x.2 = y.2 → x.2 ≠ .str → x.1 = y.1) ∧
+    (categories strong cols).Pairwise (fun x y => (x.2 = .str ∨ y.2 = .str) → x.1 ≠ y.1) := by
+  obtain ⟨_, n, h⟩ := categories_spec strong cols
+  refine ⟨h.strongP, h.weak, ?_⟩
+  refine List.Pairwise.imp_of_mem ?_ h.strP
+  intro a b ha hb hab hor
+  by_cases has : a.2 = .str <;> by_cases hbs : b.2 = .str
+  · exact hab has hbs
+  · exact h.strNon a ha b hb has hbs
+  · exact fun e => h.strNon b hb a ha hbs has e.symm
+  · rcases hor with h1 | h1
+    · exact absurd h1 has
+    · exact absurd h1 hbs
+
+/-- **terminals_spec.**  For columns whose states sit in `d_string` columns (every column list the two
+    readers build): `setup_terminals` inserts, column by column – for the columns after the output
+    column that have a domain, in their order – the variable of the column (index = its rank among
+    those columns) followed by one constant per state of the column, named by the state between
+    quotes, evaluating to the state, all in the category `category_set` gives the column; and the
+    variables are exactly those of `var_binding`. -/
+theorem terminals_spec (strong : Bool) (cols : List Col) (h2 : 2 ≤ cols.length) (hst : StatesStr cols.tail) :
+    ∃ syms, setupSymbols { guards := true } strong cols = .ok syms ∧
+      syms = ((keptCols cols.tail 1).zipIdx 0).flatMap (fun q =>
+        TermSym.var { name := varName q.1.1 q.1.2, var := q.2,
+                      category := ((categories strong cols).getD q.1.2 (none, .void)).1 } ::
+          q.1.1.states.map (fun s =>
+            TermSym.const (quoteStr s) s ((categories strong cols).getD q.1.2 (none, .void)).1)) ∧
+      setupTerminals { guards := true } strong cols = .ok (syms.filterMap TermSym.var?) := by
+  have hlt : ¬ cols.length < 2 := by omega
+  refine ⟨_, ?_, rfl, ?_⟩
+  · simp only [setupSymbols, hlt, if_false]
+    exact setupSymsGo_spec _ cols.tail 1 0 hst
+  · simp only [setupTerminals, hlt, if_false, pure, Except.pure]
+    rw [setupVarsGo_spec, flatMap_var?]
+    intro a s hs
+    simp only [List.mem_map] at hs
+    obtain ⟨_, _, rfl⟩ := hs
+    rfl
+
+/-- **terminals_of_read.**  `terminals_spec` applies to every dataframe the two readers return, for
+    every input and every parameter setting: the columns they build carry states only when their
+    domain is `d_string` (so `setup_terminals` never meets a state it cannot turn into a constant). -/
+theorem terminals_of_read (cfg : Cfg) (o : NumOracle F) :
+    (∀ (p : Params) (bytes : Str) (df : DF F), readCsv cfg o p bytes = .ok df → StatesStr df.cols.tail) ∧
+    (∀ (hook : Hook) (doc : XDoc) (df : DF F) (n : Nat), readXrffH cfg o hook doc = .ok (df, n) →
+        StatesStr df.cols.tail) := by
+  constructor
+  · intro p bytes df h c hc
+    exact readCsv_statesStr cfg o p bytes df h c (List.mem_of_mem_tail hc)
+  · intro hook doc df n h c hc
+    exact readXrffH_statesStr cfg o hook doc df n h c (List.mem_of_mem_tail hc)
+
+/-- **var_typed.**  After the fix, on an example `to_example` built for the same columns: there is one
+    variable per column with a domain; variable `j` is named after the `j`-th such column, is in the
+    category of that column, reads input `j`, and what it reads is a value of that column's domain –
+    the domain `category_set` records for the category (numbers for numeric columns, texts for string
+    columns; never a value of another column's type). -/
+theorem var_typed (o : NumOracle F) (strong : Bool) (cols : List Col) (vars : List VarSym) (xs : List Str)
+    (e : Example F) (h : setupTerminals { guards := true } strong cols = .ok vars)
+    (hin : InputsOK o (cols.tail.map (·.dom)) xs) (he : e.input = inputVals o (cols.tail.map (·.dom)) xs) :
+    vars.length = (keptCols cols.tail 1).length ∧
+    ∀ j (hj : j < vars.length) (hk : j < (keptCols cols.tail 1).length),
+      vars[j].name = varName (keptCols cols.tail 1)[j].1 (keptCols cols.tail 1)[j].2 ∧
+      vars[j].var = j ∧
+      vars[j].category = ((categories strong cols).getD (keptCols cols.tail 1)[j].2 (none, .void)).1 ∧
+      ((categories strong cols).getD (keptCols cols.tail 1)[j].2 (none, .void)).2 = (keptCols cols.tail 1)[j].1.dom ∧
+      ∃ x, evalVar vars[j] e = .ok x ∧ x.dom = (keptCols cols.tail 1)[j].1.dom := by
+  unfold setupTerminals at h
+  split at h
+  · cases h
+  · simp only [pure, Except.pure, Except.ok.injEq] at h
+    subst h
+    rw [setupVarsGo_spec]
+    have hd := inputVals_doms o cols.tail xs 1 hin
+    rw [← he] at hd
+    have hlen : e.input.length = (keptCols cols.tail 1).length := by
+      have := congrArg List.length hd
+      simpa using this
+    refine ⟨by simp, ?_⟩
+    intro j hj hk
+    simp only [List.getElem_map, List.getElem_zipIdx, Nat.zero_add]
+    have hje : j < e.input.length := by omega
+    refine ⟨trivial, trivial, trivial, ?_, e.input[j], ?_, ?_⟩
+    · -- the domain recorded for the column in the category set is the column's
+      have hmem : (keptCols cols.tail 1)[j] ∈ cols.tail.zipIdx 1 :=
+        (List.mem_filter.1 (List.getElem_mem hk)).1
+      generalize (keptCols cols.tail 1)[j] = p at hmem ⊢
+      obtain ⟨c, i⟩ := p
+      obtain ⟨hi, hi2, hc⟩ := List.mem_zipIdx hmem
+      have hcols : cols[i]? = some c := by
+        cases cols with
+        | nil => simp at hi2; omega
+        | cons c0 cs =>
+          simp only [List.tail_cons] at hc hi2
+          have : i = (i - 1) + 1 := by omega
+          rw [this, List.getElem?_cons_succ, hc, List.getElem?_eq_getElem]
+      have hmap := (category_valid strong cols).1
+      have : ((categories strong cols).map (·.2))[i]? = some c.dom := by
+        rw [hmap, List.getElem?_map, hcols]; rfl
+      rw [List.getElem?_map] at this
+      cases hg : (categories strong cols)[i]? with
+      | none => simp [hg] at this
+      | some y =>
+        simp only [hg, Option.map_some, Option.some.injEq] at this
+        simp [List.getD, hg, this]
+    · simp [evalVar, fetchVar, List.getElem?_eq_getElem hje, pure, Except.pure]
+    · have := congrArg (fun l => l[j]?) hd
+      simp only [List.getElem?_map, List.getElem?_eq_getElem hje, List.getElem?_eq_getElem hk,
+        Option.map_some, Option.some.injEq] at this
+      exact this
+
+/-! ## 4c. `dataframe::read` -/
+
+/-- **read_by_extension.**  `dataframe::read` reads a file as XRFF exactly when its extension is `.xrff`
+    or `.xml` in any mixture of upper and lower case, and as CSV otherwise; in either case with the same
+    parameters (the hook for XRFF; everything for CSV) and the result of that reader. -/
+theorem read_by_extension (cfg : Cfg) (o : NumOracle F) (p : Params) (ext bytes : Str) (doc : XDoc) :
+    (isXrffExt ext = true ↔ (ext.map toLower = ".xrff".toList ∨ ext.map toLower = ".xml".toList)) ∧
+    (isXrffExt ext = true → readFile cfg o p ext bytes doc = readXrffH cfg o p.hook doc) ∧
+    (isXrffExt ext = false → readFile cfg o p ext bytes doc =
+      (readCsv cfg o p bytes >>= fun df => pure (df, df.examples.length))) := by
+  refine ⟨?_, ?_, ?_⟩
+  · unfold isXrffExt
+    rw [Bool.or_eq_true, iequals_iff, iequals_iff]
+    have h1 : (".xrff".toList).map toLower = ".xrff".toList := by decide
+    have h2 : (".xml".toList).map toLower = ".xml".toList := by decide
+    rw [h1, h2]
+  · intro h; simp [readFile, h]
+  · intro h; simp [readFile, h]
+
 /-! ## 5. sniffer -/
 
 /-- **sniff_agrees.**  On the tables of the class `Unambiguous` (defined in LemmasSniff.lean: at
@@ -432,6 +757,49 @@ theorem sniffed_read_eq_explicit (cfg : Cfg) (o : NumOracle F) (d : Char) (hdr :
     intro hd; subst hd; simp [preferred] at this
   unfold readCsv resolveDialect
   simp [hp.1, hp.2, hs, hd0]
+
+/-- **explicit_wins.**  For every file and every parameter setting: an explicit delimiter and an
+    explicit `header()` / `no_header()` are the ones `read_csv` uses, whatever the sniffer thinks of
+    the file and whether or not it runs for the other setting; the sniffer's values are used only for
+    what the caller left open (`delimiter = 0`, `GUESS_HEADER`). -/
+theorem explicit_wins (cfg : Cfg) (o : NumOracle F) (p : Params) (lines : List Str) :
+    (p.delim ≠ '\x00' → (resolveDialect cfg o p lines).1 = p.delim) ∧
+    (∀ b, p.header = some b → (resolveDialect cfg o p lines).2 = b) ∧
+    (p.delim = '\x00' → (resolveDialect cfg o p lines).1 = (sniffer o cfg.sniffLines lines).1) ∧
+    (p.header = none → (resolveDialect cfg o p lines).2 = (sniffer o cfg.sniffLines lines).2) := by
+  unfold resolveDialect
+  refine ⟨?_, ?_, ?_, ?_⟩
+  · intro h; split <;> simp [h]
+  · intro b h; split <;> simp [h]
+  · intro h; simp [h]
+  · intro h; simp [h]
+
+/-- consequently, with an explicit header setting the import is the loop of `read_csv` run with that
+    setting over the records parsed with the explicit – or, if left open, the guessed – delimiter: the
+    sniffer's header vote has no influence, for any file, also when the delimiter is sniffed -/
+theorem explicit_header_wins (cfg : Cfg) (o : NumOracle F) (p : Params) (b : Bool) (bytes : Str)
+    (h : p.header = some b) :
+    readCsv cfg o p bytes =
+      readCsvRecs cfg o p.outIdx b
+        (records { delim := if p.delim = '\x00' then guessDelimiter cfg.sniffLines (splitLines bytes) else p.delim,
+                   trimWs := p.trimWs, keepQuotes := p.keepQuotes } p.hook (splitLines bytes)) := by
+  unfold readCsv resolveDialect
+  by_cases hd : p.delim = '\x00' <;> simp [h, hd, sniffer]
+
+/-- **explicit header, sniffed delimiter, on a table.**  A file without quoting whose cells are not
+    blank and free of the five candidate delimiters (at least two columns, at least one line; the
+    cells may be numbers or text, the first line may or may not look like a header to the sniffer):
+    reading it with `header()` / `no_header()` and the delimiter left to the sniffer is reading it
+    with both given explicitly. -/
+theorem explicit_header_sniffed_delimiter (cfg : Cfg) (o : NumOracle F) (d : Char) (hd : d ∈ preferred)
+    (w : Nat) (hw : 2 ≤ w) (rows : List (List Str)) (hne : rows ≠ [])
+    (hcells : ∀ r ∈ rows, r.length = w ∧ ∀ c ∈ r, PlainCell c ∧ isBlank c = false)
+    (p : Params) (b : Bool) (hn : 1 ≤ cfg.sniffLines) (hp : p.delim = '\x00' ∧ p.header = some b) :
+    readCsv cfg o p (renderPlain d rows) = readCsv cfg o { p with delim := d } (renderPlain d rows) := by
+  have hg := guessDelimiter_plain cfg.sniffLines hn d hd w hw rows hne hcells
+  have hd0 : d ≠ '\x00' := (preferred_facts d hd).1
+  rw [explicit_header_wins cfg o p b _ hp.2, explicit_header_wins cfg o { p with delim := d } b _ hp.2]
+  simp [hp.1, hg, hd0]
 
 /-! ## 6. the hypotheses can be met -/
 
@@ -473,17 +841,55 @@ example : WellFormed ',' [] toyTable where
     simp [Table.lines, Table.rows, toyTable] at hl
     rcases hl with rfl | rfl | rfl <;> simp [renderLine, renderField, esc, isBlank, isSpace]
 
-example : Typed digitOracle (some 0) false toyTable where
+example : Typed digitOracle (some 0) false false toyTable where
   rows := by
     intro r hr
     simp [Table.rows, toyTable] at hr
     rcases hr with rfl | rfl <;>
-      simp [toyTable, fieldsOf, prep, rot, kinds, kindOf, RowOK, OutOK, InputsOK, CellOK, Stable, isNumber, trim,
+      simp [toyTable, fieldsOf, fieldOut, fieldSeen, prep, rot, kinds, kindOf, RowOK, OutOK, InputsOK, CellOK, Stable, isNumber, trim,
         isBlank, isSpace, digitOracle]
   cls := by
     right
-    simp [Table.rows, toyTable, fieldsOf, prep, rot, kinds, kindOf, Classif, outDom, specRows, outVal, encode, lookup,
+    simp [Table.rows, toyTable, fieldsOf, fieldOut, fieldSeen, prep, rot, kinds, kindOf, Classif, outDom, specRows, outVal, encode, lookup,
       isNumber, trim, isBlank, isSpace, digitOracle]
+
+/-- the hypotheses of `hook_absent` / `filter_absent` can be met: `toyTable` read with the filter that
+    rejects the records whose first field is `c` is `name,n / "a,b",1` read without a filter -/
+example : readCsv {} digitOracle { delim := ',', header := some true, hook := Hook.ofPred (fun r => r.head? != some ['c']) }
+      (toyTable.render ',' []) =
+    readCsv {} digitOracle { delim := ',', header := some true, hook := some }
+      (renderFile [] ([[("name".toList, false), ("n".toList, false)], [("a,b".toList, true), ("1".toList, false)]].map
+        (renderLine ','))) :=
+  filter_absent {} digitOracle ',' [] toyTable { delim := ',', header := some true }
+    (fun r => r.head? != some ['c']) _ rfl rfl
+    { d0 := by decide, dq := by decide, dn := by decide, eol_ok := Or.inl rfl
+      rect := by intro l hl; simp [Table.lines, Table.rows, toyTable] at hl; rcases hl with rfl | rfl | rfl <;> rfl
+      width := by simp [toyTable]
+      clean := by
+        intro l hl p hp
+        simp [Table.lines, Table.rows, toyTable] at hl
+        rcases hl with rfl | rfl | rfl <;> simp at hp <;> rcases hp with rfl | rfl <;>
+          (refine ⟨?_, ?_⟩ <;> simp [Clean, needsQuote, isSpace] <;> decide)
+      visible := by
+        intro l hl
+        simp [Table.lines, Table.rows, toyTable] at hl
+        rcases hl with rfl | rfl | rfl <;> simp [renderLine, renderField, esc, isBlank, isSpace] }
+    (by simp [Table.lines, Table.rows, toyTable, fieldsOf, fieldOut, fieldSeen]; decide)
+
+/-- columns `y` (numeric output), `a` (numeric), `s` (text with the states `F`, `M`): the hypotheses
+    of `terminals_spec` and `var_typed` are met (record `7, 1, M`) -/
+def toyCols : List Col :=
+  [{ name := ['y'], dom := .dbl }, { name := ['a'], dom := .dbl }, { name := ['s'], dom := .str, states := [['F'], ['M']] }]
+
+example : StatesStr toyCols.tail ∧ 2 ≤ toyCols.length := by
+  constructor
+  · intro c hc; simp [toyCols] at hc; rcases hc with rfl | rfl <;> simp
+  · simp [toyCols]
+
+example : ∃ vars : List VarSym, setupTerminals { guards := true } false toyCols = .ok vars ∧
+    InputsOK digitOracle (toyCols.tail.map (·.dom)) [['1'], ['M']] := by
+  refine ⟨_, rfl, ?_⟩
+  simp [toyCols, InputsOK, CellOK, digitOracle, trim, isSpace]
 
 /-- `x,y / 1,2 / 3,4` is an unambiguous table -/
 example : Unambiguous digitOracle ',' (some ["x".toList, "y".toList])
@@ -505,6 +911,19 @@ example : Unambiguous digitOracle ',' (some ["x".toList, "y".toList])
     simp at hc
     rcases hc with rfl | rfl <;>
       simp [HeadCell, PlainCell, preferred, isBlank, isSpace, isNumber, trim, digitOracle] <;> decide
+
+/-- `2019;2020 / 1;2` (column names that are numbers: the sniffer votes "no header") meets the
+    hypotheses of `explicit_header_sniffed_delimiter` -/
+example : readCsv {} digitOracle { header := some true } (renderPlain ';' [["2019".toList, "2020".toList], ["1".toList, "2".toList]]) =
+    readCsv {} digitOracle { header := some true, delim := ';' }
+      (renderPlain ';' [["2019".toList, "2020".toList], ["1".toList, "2".toList]]) :=
+  explicit_header_sniffed_delimiter {} digitOracle ';' (by simp [preferred]) 2 (by omega) _ (by simp)
+    (by
+      intro r hr
+      simp at hr
+      rcases hr with rfl | rfl <;> refine ⟨rfl, ?_⟩ <;> intro c hc <;> simp at hc <;> rcases hc with rfl | rfl <;>
+        simp [PlainCell, preferred, isBlank, isSpace] <;> decide)
+    { header := some true } true (by decide) ⟨rfl, rfl⟩
 
 /-- an XRFF document (numeric attribute `x`, nominal class attribute `c`, instances `1,u` and `2,v`)
     meets the hypotheses of `rows_faithful_xrff` -/
